@@ -126,6 +126,7 @@ class FlowFields(ImageBatch):
             grid
             and axes is not None
             and data.ndim == grid[0].ndim + 2
+            and data.shape[0] == len(grid)
             and data.shape[1] == grid[0].ndim
             and data.shape[2:] == grid[0].shape
         ) or (grid is not None and not grid and data.ndim >= 4 and data.shape[0] == 0):
